@@ -103,4 +103,34 @@ func init() {
 	mut("C17", "observer applies all sets before all deletes", gt,
 		"			for ch := range changes {\n				switch ch.Variant {\n				case change.VariantSet:\n					for _, idx := range indexes {\n						idx.set(ch.Value)\n					}\n				case change.VariantDelete:\n					for _, idx := range indexes {\n						idx.delete(ch.Key)\n					}\n				}\n			}",
 		"			var dels []K\n			for ch := range changes {\n				switch ch.Variant {\n				case change.VariantSet:\n					for _, idx := range indexes {\n						idx.set(ch.Value)\n					}\n				case change.VariantDelete:\n					dels = append(dels, ch.Key)\n				}\n			}\n			for _, k := range dels {\n				for _, idx := range indexes {\n					idx.delete(k)\n				}\n			}", "C17.R6.delta")
+
+	// ---------------- C15
+	const chgo = "core/pkg/distribution/channel/channel.go"
+	const lpgo = "core/pkg/distribution/channel/lease_proxy.go"
+	mut("C15", "Leaseholder decodes with a different shift", chgo,
+		"func (c Key) Leaseholder() node.Key { return node.Key(c >> 20) }", "func (c Key) Leaseholder() node.Key { return node.Key(c >> 16) }", "C15.R1.layout")
+	mut("C15", "LocalKey mask one bit short", chgo,
+		"func (c Key) LocalKey() LocalKey { return LocalKey(c & 0xFFFFF) }", "func (c Key) LocalKey() LocalKey { return LocalKey(c & 0x7FFFF) }", "C15.R1.layout")
+	mut("C15", "counter may exceed 20 bits", "core/pkg/distribution/channel/counter.go",
+		"int64(math.MaxUint20)", "int64(math.MaxUint20) * 2", "C15.R1.layout")
+	mut("C15", "key offset taken from the position in the request", lpgo,
+		"			ch.LocalKey = originalCounterValue + LocalKey(len(toCreate)) + 1", "			ch.LocalKey = originalCounterValue + LocalKey(i) + 1", "C15.R2.provenance")
+	mut("C15", "caller-supplied local keys are trusted", lpgo,
+		"		} else if ch.LocalKey != 0 {\n			channels[i].LocalKey = 0\n		}", "		} else if ch.LocalKey != 0 {\n			channels[i].LocalKey = ch.LocalKey + 1\n		}", "C15.R2.provenance")
+	mut("C15", "rows created although key assignment failed", lpgo,
+		"	toCreate, err := s.retrieveExistingAndAssignKeys(ctx, tx, channels, s.leasedCounter, opts.RetrieveIfNameExists)\n	if err != nil {\n		return err\n	}", "	toCreate, err := s.retrieveExistingAndAssignKeys(ctx, tx, channels, s.leasedCounter, opts.RetrieveIfNameExists)\n	if err != nil {\n		s.cfg.L.Warn(err.Error())\n	}", "C15.R2.provenance")
+	mut("C15", "DeleteChannels forgets virtual channels again", "cesium/delete.go",
+		"		_, vok := db.mu.dbs.virtual[ch]\n\n		if (!uok && !vok) || udb.Channel().IsIndex {", "		if !uok || udb.Channel().IsIndex {", "C15.R3.union")
+	mut("C15", "DeleteTimeRange reports virtual channels as missing", "cesium/delete.go",
+		"		if _, ok := db.mu.dbs.virtual[ch]; ok {\n			continue\n		}\n		return channel.NewNotFoundError(ch)", "		return channel.NewNotFoundError(ch)", "C15.R3.union")
+	mut("C15", "deleteGateway mutates the engine before the ontology clean-up", lpgo,
+		"	if err := s.maybeDeleteResources(ctx, tx, keys); err != nil {\n		return err\n	}\n	// It's very important that this goes last, as it's the only operation that can fail\n	// without an atomic guarantee.\n	if err := s.cfg.TSChannel.DeleteChannels(keys.Storage()); err != nil {\n		return err\n	}",
+		"	if err := s.cfg.TSChannel.DeleteChannels(keys.Storage()); err != nil {\n		return err\n	}\n	if err := s.maybeDeleteResources(ctx, tx, keys); err != nil {\n		return err\n	}", "C15.R4.order")
+	mut("C15", "gateway deleted before the peers are asked", lpgo,
+		"	batch := s.keyRouter.Batch(keys)\n	for nodeKey, entries := range batch.Peers {\n		err := s.deleteRemote(ctx, nodeKey, entries)\n		if err != nil {\n			return err\n		}\n	}",
+		"	batch := s.keyRouter.Batch(keys)\n	if err := s.deleteGateway(ctx, tx, batch.Gateway); err != nil {\n		return err\n	}\n	batch.Gateway = nil\n	for nodeKey, entries := range batch.Peers {\n		err := s.deleteRemote(ctx, nodeKey, entries)\n		if err != nil {\n			return err\n		}\n	}", "C15.R4.order")
+	mut("C15", "createGateway stores different rows than it created in the engine", lpgo,
+		"	storageChannels := toStorage(toCreate)", "	storageChannels := toStorage(*channels)", "C15.R4.order")
+	mut("C15", "proxy drops entries leased to the host when it is node 1", "core/pkg/distribution/proxy/proxy.go",
+		"		} else if lease == f.Host {\n			b.Gateway = append(b.Gateway, entry)\n		} else {", "		} else if lease == f.Host {\n			if lease != 1 {\n				b.Gateway = append(b.Gateway, entry)\n			}\n		} else {", "C15.R4.order")
 }
